@@ -76,7 +76,7 @@ func (c *Contract) Key() string {
 	return c.Target
 }
 
-var kwRe = regexp.MustCompile(`^(contract|extern|model|loop|lemma|spec|property|requires|ensures|invariant|assigns|let|decreases|inline|flag|go|end)\b\s*(.*)$`)
+var kwRe = regexp.MustCompile(`^(shared|contract|extern|model|loop|lemma|spec|property|requires|ensures|invariant|assigns|let|decreases|inline|flag|go|end)\b\s*(.*)$`)
 
 func parseContractFile(path string) ([]*Contract, string, error) {
 	data, err := os.ReadFile(path)
@@ -124,6 +124,9 @@ func parseContractFile(path string) ([]*Contract, string, error) {
 			return nil, "", fmt.Errorf("%s:%d: unknown contract line %q", path, i+1, tb)
 		}
 		kw, rest := m[1], strings.TrimSpace(m[2])
+		if kw == "shared" {
+			continue // file-level marker: load this file for every property
+		}
 		// strip trailing line comment
 		switch kw {
 		case "contract", "extern", "model", "loop", "lemma", "spec":
